@@ -27,7 +27,11 @@ package cli
 
 // exit status: usage error -> stderr + exit 1; help -> exit 0; generation error -> stderr + exit 1; otherwise normal return
 //@ func Run
-//@   props C17 C13
+//@   props C17 C13 C16
+// the configuration that was parsed from the command line (build tags, output constraint, patterns, -g lines,
+// working directory) is what generation runs with
+//@   at@C16 call goverter.GenerateConverters#1 assert arg0 != nil && arg0.OutputBuildConstraint == cmd.Config.OutputBuildConstraint && arg0.BuildTags == cmd.Config.BuildTags
+//@           && arg0.WorkingDir == cmd.Config.WorkingDir && same(arg0.PackagePatterns, cmd.Config.PackagePatterns) && same(arg0.Global, cmd.Config.Global)
 //@   ensures true
 //@   at call os.Exit#1 assert err != nil
 //@   at call os.Exit#2 assert err == nil
